@@ -1,8 +1,8 @@
 INIT Init
 NEXT Next
 CONSTANTS
-  Thorough = FALSE
-  Shard = 0
-  NShards = 1
+  Thorough = TRUE
+  Shard = 5
+  NShards = 8
 INVARIANTS WF Emit
 CHECK_DEADLOCK FALSE
